@@ -141,6 +141,8 @@ def _delta_nonneg(ck, prog):
             else:
                 terms.append(("top", unparse(s)))
     ok = init_ok and terms and all(t[0] in ("pos", "nonneg", "zero") for t in terms)
+    # the sign domain proves non-negativity or proves nothing ('top'): an unproved premise makes the kappa table undecided, it is not a verdict
+    ck.shape(bool(ok), "deltaForm: accumulated terms provably non-negative (signs found: %s)" % [t[0] for t in terms], f.loc(loop))
     ck.ob("SIGN", construct, bool(ok), expected="accumulator starts at 0 and only receives non-negative terms",
           found={"init_zero": init_ok, "terms": terms}, slot="deltaForm>=0", where=f.loc(loop))
     g = prog.fn(SEQ, "Sequence.delta")
@@ -151,6 +153,7 @@ def _delta_nonneg(ck, prog):
             return "nonneg"
         return None
     s = sign_of(r[0].value, {}, g.mod, cs) if len(r) == 1 else "top"
+    ck.shape(s in ("nonneg", "pos", "zero"), "delta(): the combination of the two blob sizes is provably non-negative (sign found: %s)" % s, g.loc())
     ck.ob("SIGN", SEQ_PATH + ":Sequence.delta", s in ("nonneg", "pos", "zero"),
           expected="delta() >= 0", found=s, slot="delta>=0", where=g.loc())
 
